@@ -53,7 +53,7 @@ Section Shape.
                    end in
     let '(X1, G1, m1) := match X with
                          | [] => ([x], [g], None)
-                         | _ => update_mem K c x g X G None
+                         | _ => update_mem_f K c (1 <? List.length X)%nat x g X G None
                          end in
     mklst x f0 g X1 G1 m1 nit_start MStart false 2 t3.
 
@@ -106,13 +106,13 @@ Section Shape.
         with (step_upd x (mul f0 (scale t3)) (vscale g (scale t3)) X G) in H.
       apply bind_ok_inv in H as ([[f1 g1] G1] & tr6 & trF & H6 & H & ->).
       assert (EFS : forall t, (let '(X0, G0) := match u_upd U, X with Some _, _ :: _ => filter_mem K c X G1 | _, _ => (X, G1) end in
-                          let '(X1, G2, m1) := match X0 with [] => ([x], [g1], None) | _ :: _ => update_mem K c x g1 X0 G0 None end in
+                          let '(X1, G2, m1) := match X0 with [] => ([x], [g1], None) | _ :: _ => update_mem_f K c (1 <? List.length X0)%nat x g1 X0 G0 None end in
                           mklst x f1 g1 X1 G2 m1 (match checkpoint c with None => 0 | Some ck => r_nit ck end) MStart false 2 t)
                           = first_state x f1 g1 G1 t).
       { intros t. unfold first_state, nit_start. rewrite ERX. cbn [fst]. reflexivity. }
       specialize (EFS t3).
       destruct (match u_upd U, X with Some _, _ :: _ => filter_mem K c X G1 | _, _ => (X, G1) end) as [X0 G0] eqn:EF.
-      destruct (match X0 with [] => ([x], [g1], None) | _ :: _ => update_mem K c x g1 X0 G0 None end) as [[X1 G2] m1] eqn:EM.
+      destruct (match X0 with [] => ([x], [g1], None) | _ :: _ => update_mem_f K c (1 <? List.length X0)%nat x g1 X0 G0 None end) as [[X1 G2] m1] eqn:EM.
       cbn beta iota in EFS. rewrite EFS in H.
       apply bind_ok_inv in H as (s' & tr7 & trG & H7 & H & ->).
       unfold ret in H. inversion H; subst. rewrite app_nil_r.
